@@ -546,7 +546,9 @@ func (rs *runState) report(wall float64, partial bool) int {
 		"property_id": id, "tier": rs.tier, "seed": rs.seed, "level": rs.p.Level,
 		"coverage": cov, "assumptions": rs.p.Assume, "wall_s": wall, "violations": unlisted,
 	}
-	if !partial {
+	// evidence describes runs against /repo itself: nothing is written for a partial run or for a
+	// self-validation run against a scratch copy (VH_REPO)
+	if !partial && os.Getenv("VH_REPO") == "" {
 		os.MkdirAll(filepath.Join(VerifDir, "evidence"), 0o755)
 		b, _ := json.MarshalIndent(ev, "", " ")
 		os.WriteFile(filepath.Join(VerifDir, "evidence", id+".json"), append(b, '\n'), 0o644)
